@@ -298,6 +298,8 @@ class SymBidict:
     Entries are [key, val] lists; per column, concrete strings are indexed by a real dict and every entry is
     bucketed by the (concrete) length of its text, so a lookup only compares against same-length candidates."""
 
+    extra_len = None   # harness hook: a symbolic number of further (irrelevant, invariant-satisfying) entries reported by len()
+
     def __init__(self, init=None):
         self.ents = []
         self.cmap = ({}, {})      # column -> {concrete str: entry}
